@@ -689,4 +689,46 @@ theorem checkDim_base_some (st : State) (name : Nat) (idx : List Int) (b : Int)
       · exact hk
       · split <;> exact hk
 
+/-! ### statements with several array references -/
+
+theorem get_keeps (st : State) (m : Nat) (idx : List Int) (n : Nat) (a : Arr)
+    (hf : find n st.arrs = some a) : find n (Arrays.get st m idx).1.arrs = some a := by
+  rw [get_state]; exact checkDim_keeps st m idx n a hf
+
+theorem evalSrcs_keeps (srcs : List (Nat × List Int)) : ∀ (st : State) (n : Nat) (a : Arr),
+    find n st.arrs = some a → find n (evalSrcs st srcs).1.arrs = some a := by
+  induction srcs with
+  | nil => intro st n a hf; exact hf
+  | cons x xs ih =>
+    intro st n a hf
+    obtain ⟨m, idx⟩ := x
+    have hk := get_keeps st m idx n a hf
+    unfold evalSrcs
+    split
+    · next he => rw [he] at hk; exact hk
+    · next st' v he =>
+      rw [he] at hk
+      have hk2 := ih st' n a hk
+      split
+      · next he2 => rw [he2] at hk2; exact hk2
+      · next he2 => rw [he2] at hk2; exact hk2
+
+theorem set_keeps_dims (st : State) (m : Nat) (idx : List Int) (v : Int) (n : Nat) (a : Arr)
+    (hf : find n st.arrs = some a) :
+    ∃ a', find n (Arrays.set st m idx v).1.arrs = some a' ∧ a'.dims = a.dims := by
+  have hk := checkDim_keeps st m idx n a hf
+  unfold Arrays.set
+  split
+  · next he => rw [he] at hk; exact ⟨a, hk, rfl⟩
+  · next st' b he =>
+    rw [he] at hk
+    have hb := checkDim_ok_find he
+    by_cases hn : n = m
+    · subst hn
+      rw [hk] at hb
+      have : a = b := by simpa using hb
+      subst this
+      exact ⟨_, find_update_same hk, rfl⟩
+    · exact ⟨a, by simp only; rw [find_update_other _ _ hn]; exact hk, rfl⟩
+
 end PcbV.Arrays
